@@ -125,6 +125,19 @@ theorem qrna_inplace_eq_separate (isGap : UInt8 → Bool) (x y : Bytes) (ox oy :
     qrnaOut isGap x y ox oy base L r = qrna isGap x y base L r :=
   qrnaOut_eq isGap x y ox oy base L r hx hy
 
+/-- the whole call `esl_msashuffle_{C,X}QRNA`: `eslEINVAL` exactly when the two lengths differ, `eslEMEM` exactly for two
+    zero-length sequences (Easel's zero-size-allocation exception), the generator untouched on both error paths, otherwise
+    `eslOK` with the result of `qrnaOut` (to which `qrna_inplace_eq_separate`, `qrna_keeps_classes`, `qrna_class_perm` apply) -/
+theorem qrna_status (isGap : UInt8 → Bool) (x y : Bytes) (ox oy : Out UInt8) (base : Nat) (r : Rng) :
+    ((qrnaCall isGap x y ox oy base r).1 = .einval ↔ x.size - 2 * base ≠ y.size - 2 * base) ∧
+    ((qrnaCall isGap x y ox oy base r).1 = .emem ↔ x.size - 2 * base = y.size - 2 * base ∧ x.size - 2 * base = 0) ∧
+    ((qrnaCall isGap x y ox oy base r).1 = .einval ∨ (qrnaCall isGap x y ox oy base r).1 = .emem → (qrnaCall isGap x y ox oy base r).2 = r) ∧
+    (x.size - 2 * base = y.size - 2 * base → x.size - 2 * base ≠ 0 →
+      qrnaCall isGap x y ox oy base r =
+        (.ok (qrnaOut isGap x y ox oy base (x.size - 2 * base) r).1.1 (qrnaOut isGap x y ox oy base (x.size - 2 * base) r).1.2,
+         (qrnaOut isGap x y ox oy base (x.size - 2 * base) r).2)) :=
+  qrnaCall_status isGap x y ox oy base r
+
 /-! ## alignment shufflers -/
 /-- `esl_msashuffle_Shuffle` (`base = 0` text, `base = 1` digital): the output columns are the input columns, each exactly
     once (a permutation of the list of columns, entries of a column kept together); other columns (the digital
@@ -808,6 +821,15 @@ theorem iid_never_fatal (p : List ℚ) (hp : ∀ q ∈ p, 0 ≤ q) (hs : 0 < p.s
     ∃ out, (iidLoop p L r #[]).1 = some out :=
   iidLoop_total p hp hs L r #[]
 
+/-- over ANY number type (binary64 included): if the vector's sum divided by itself is `1` and every `esl_random()` value is
+    `< 1` — the IEEE facts L5 that the op `fplaws` checks on every executed call — the i.i.d. loops never reach `esl_fatal`:
+    the scan's last running sum IS the norm (same numbers, same order). No ordering law is used. -/
+theorem iid_never_fatal_any_number_type {α : Type} [CNum α] (p : List α) (hp : p ≠ [])
+    (hself : CNum.div (p.foldl CNum.add CNum.zero) (p.foldl CNum.add CNum.zero) = CNum.one)
+    (hu : ∀ x : Nat, x < 4294967296 → CNum.lt (CNum.div (CNum.ofNat x) (CNum.ofNat 4294967296) : α) CNum.one = true)
+    (L : Nat) (r : Rng) : ∃ out, (iidLoop p L r #[]).1 = some out :=
+  iidLoop_total_abs p hp hself hu L r #[]
+
 /-- exact first-order counts: entry `(x, y)` is the number of occurrences of `(x, y)` among the circular adjacent pairs -/
 theorem markov1_counts_exact (K c0 : Nat) (rest : List Nat) (x y : Nat) :
     ent (markov1Counts (α := ℚ) K (c0 :: rest)) x y =
@@ -918,5 +940,14 @@ example : (∀ q ∈ ([0, 1/4, 3/4, 0] : List ℚ), 0 ≤ q) ∧ 0 < ([0, 1/4, 3
   · intro q hq; simp at hq; rcases hq with h | h | h | h <;> rw [h] <;> norm_num
   · norm_num
 example : (1, 0) ∈ circPairs [0,0,0,0,0,0,0,0,0,1] ∧ (1, 0) ∉ adjPairs [0,0,0,0,0,0,0,0,0,1] := by decide
+
+/-- the hypotheses of `iid_never_fatal_any_number_type` hold for the rationals (vector `[1/2, 1/2]`) -/
+example : ∃ out, (iidLoop ([1/2, 1/2] : List ℚ) 3 (Rng.create .fast 1) #[]).1 = some out :=
+  iid_never_fatal_any_number_type _ (by simp)
+    (by show ((0 : ℚ) + 1/2 + 1/2) / ((0 : ℚ) + 1/2 + 1/2) = 1; norm_num)
+    (fun x hx => by
+      show decide (((x : ℚ)) / ((4294967296 : Nat) : ℚ) < 1) = true
+      rw [decide_eq_true_iff, div_lt_one (by positivity)]
+      exact_mod_cast hx) 3 _
 
 end EaselModel.Props.C18
